@@ -207,7 +207,13 @@ impl VMMap for Map64 {
 
     fn get_descriptor_for_address(&self, address: Address) -> SpaceDescriptor {
         if let Some(index) = Self::space_index(address) {
-            self.inner().descriptor_map[index]
+            // The heap range extends beyond the last slot a space can be placed in: an address up
+            // there belongs to no space.
+            self.inner()
+                .descriptor_map
+                .get(index)
+                .copied()
+                .unwrap_or(SpaceDescriptor::UNINITIALIZED)
         } else {
             SpaceDescriptor::UNINITIALIZED
         }
